@@ -3,7 +3,7 @@
    documented parts; X-theorems give FastStochastic on the extremes of exactly the last min(t,p) prices. RateOfChange,
    EfficiencyRatio and MoneyFlowIndex are tied by the exact-rational instance (T2) — partial. *)
 From Coq Require Import Reals.
-From TA Require Import Base Model XR Proofs.Ring Proofs.Wiring Proofs.Osc Proofs.XFast.
+From TA Require Import Base Model XR Proofs.Ring Proofs.Wiring Proofs.Osc Proofs.XFast Proofs.XRoc.
 
 (* RSI = 100*U/(U+D), U and D the EMA(n) of gains and losses, both seeded 0.1 (so the first output is 50) *)
 Theorem C03_rsi : forall (F : Type) (O : Ops F) xs p (up down : @Ema F) prev is_new,
@@ -48,3 +48,13 @@ Proof. intros. apply cci_wiring. Qed.
 (* OBV = running sum of +volume, -volume or 0 by the sign of the close change, the first close compared with 0 *)
 Theorem C03_obv : forall (F : Type) (O : Ops F) bs, obv_outs O (obv_new O) bs = obv_rec O (zero O) (zero O) bs.
 Proof. intros. apply obv_from_new. Qed.
+
+(* RateOfChange = 100*(x_t - x_ref)/x_ref with x_ref the price n steps back, the first price until n earlier prices exist
+   (x_ref = head of the last n prices of the history before x_t; x_t itself for the very first input) — exact arithmetic,
+   every period, every finite stream; the division is IEEE-like (x_ref = 0 gives an infinity or NaN, as in the code) *)
+Theorem C03_roc : forall p s (xs : list R), roc_new XROps p = Ok s ->
+  roc_outs s (map Fin xs) = roc_spec_stream (N.to_nat p) [] xs.
+Proof. exact roc_refines. Qed.
+Theorem C03_roc_value : forall p h x, roc_ref p h x <> 0%R ->
+  roc_spec p h x = Fin ((x - roc_ref p h x) / roc_ref p h x * 100)%R /\ roc_ref p h x = hd x (lastn p h).
+Proof. intros p h x H. split; [apply roc_spec_value; exact H|reflexivity]. Qed.
